@@ -28,7 +28,7 @@ def run(ctx):
                          "distinct_nontrivial counts distinct op lines")
     proved = prove(ctx, MODULES, extra_token_dirs=("Driver/StrsD.lean",))
     if q:
-        run_strs(ctx, 2000, 30, 25, 300)
+        run_strs(ctx, 5000, 30, 40, 500)
     else:
         # 20 chunks (independent seeds) of 10 000 sequences x 40 ops + 75 sweeps + 1000 decode/format cases
         for i in range(20):
